@@ -791,6 +791,10 @@ def call_concrete(it, py, args, kwargs):
         return builtin_isinstance(it, args[0], args[1])
     if py is int:
         return builtin_int(it, args, kwargs)
+    import logging as _logging
+    if isinstance(getattr(py, '__self__', None), _logging.Logger):
+        # A-logging: log calls have no effect on the modelled state
+        return VNone
     if py is repr:
         v = args[0]
         if isinstance(v, VRef) and isinstance(ctx.cell(v), ObjCell):
